@@ -2,6 +2,7 @@ package kv
 
 import (
 	"fmt"
+	"go/token"
 	"go/types"
 	"sort"
 
@@ -222,6 +223,20 @@ func (a *Act) isLocalVar(al *ssa.Alloc) bool {
 
 func (a *Act) loopMods(li *loopInfo, st *State) *modSet {
 	li.modSt = st
+	li.modNames = nil
+	first := a.loopMods1(li)
+	names := map[string]bool{}
+	for n := range first.heaps {
+		names[n] = true
+	}
+	if first.all {
+		names["*"] = true
+	}
+	li.modNames = names
+	return a.loopMods1(li)
+}
+
+func (a *Act) loopMods1(li *loopInfo) *modSet {
 	m := &modSet{heaps: map[string]*heapMod{}, locals: map[*ssa.Alloc]bool{}, ranges: map[ssa.Value]bool{}}
 	var blocks []*ssa.BasicBlock
 	for b := range li.blocks {
@@ -374,10 +389,10 @@ func (a *Act) mapMods(li *loopInfo, m *modSet, mv ssa.Value, mt *types.Map, dept
 	dn, vn, ks, vs := d.MapHeaps(mt)
 	hd := m.heap(dn, "(Array Ref (Array "+ks+" Bool))")
 	hv := m.heap(vn, "(Array Ref (Array "+ks+" "+vs+"))")
-	if depth == 0 && li != nil && !inLoop(li, mv) {
-		if v, ok := a.vals[mv]; ok && v.T != "" {
-			hd.exact = append(hd.exact, v.T)
-			hv.exact = append(hv.exact, v.T)
+	if depth == 0 && li != nil {
+		if t, ok := a.invariantAddr(li, mv); ok {
+			hd.exact = append(hd.exact, t)
+			hv.exact = append(hv.exact, t)
 			return
 		}
 	}
@@ -424,9 +439,31 @@ func (a *Act) callMods(li *loopInfo, m *modSet, c ssa.CallInstruction, depth int
 			return
 		}
 		if _, ok := a.assumedCallback(com.Value); ok {
+			if fc := a.top.fc; fc != nil && fc.CallbackRank != nil {
+				for _, h := range []string{traceLen, traceKind, traceArg0, traceArg1, traceErr} {
+					m.heap(h, traceSorts[h]).unknown = true
+				}
+			}
 			return
 		}
 		m.all = true
+		return
+	}
+	if sv := sortSliceArg(callee, com); sv != nil {
+		et := types.Unalias(sv.Type()).Underlying().(*types.Slice).Elem()
+		var roots []Term
+		rok := false
+		if depth == 0 && li != nil {
+			roots, rok = a.rootsOf(li, sv, map[ssa.Value]bool{})
+		}
+		for _, lh := range a.elemHeaps(et) {
+			hm := m.heap(lh.name, lh.sort)
+			if rok {
+				hm.roots = append(hm.roots, roots...)
+			} else {
+				hm.unknown = true
+			}
+		}
 		return
 	}
 	if _, ok := intrinsics[intrinsicKey(callee)]; ok {
@@ -569,6 +606,17 @@ func (a *Act) loopHead(li *loopInfo, st *State, preds []edgeState) *State {
 			oldH := st.heap(n, hm.sort)
 			nh := u.D.Fresh(n, hm.sort)
 			h.setHeap(n, hm.sort, nh)
+			if srt, isTrace := traceSorts[n]; isTrace {
+				// the ghost event trace is append-only: entries below the length at loop entry are unchanged
+				l0 := st.heap(traceLen, "Int")
+				if n == traceLen {
+					u.Fact(app(">=", nh, l0))
+				} else {
+					u.Fact(fmt.Sprintf("(forall ((i Int)) (! (=> (< i %s) (= (select %s i) (select %s i))) :pattern ((select %s i))))", l0, nh, oldH, nh))
+				}
+				_ = srt
+				continue
+			}
 			if !hm.unknown {
 				conds := []Term{app("<", app("rid", "r"), st.alloc)}
 				seen := map[string]bool{}
@@ -693,6 +741,20 @@ func (a *Act) invariantAddr(li *loopInfo, v ssa.Value) (Term, bool) {
 		if isStructType(ft) || isArrayType(ft) || isOpaqueStruct(ft) {
 			if t, ok := a.invariantAddr(li, fa.X); ok {
 				return app("sub", t, intLit(int64(fa.Field))), true
+			}
+		}
+	}
+	// a load, inside the loop, of a field that the loop does not modify
+	if ld, ok := v.(*ssa.UnOp); ok && ld.Op == token.MUL && li.modNames != nil && li.modSt != nil && !li.modNames["*"] {
+		if fa, ok := ld.X.(*ssa.FieldAddr); ok {
+			ft := derefType(fa.Type())
+			if !isStructType(ft) && !isArrayType(ft) && !isOpaqueStruct(ft) {
+				if base, ok := a.invariantAddr(li, fa.X); ok {
+					h, hs := a.u.D.FieldHeap(derefType(fa.X.Type()), fa.Field)
+					if !li.modNames[h] {
+						return sel(li.modSt.heap(h, hs), base), true
+					}
+				}
 			}
 		}
 	}
